@@ -632,8 +632,9 @@ func (g *x03Gen) key() string {
 	case 3:
 		k += "_mutation"
 	}
-	if k == "definition" {
-		k = "definitions"
+	switch k {
+	case "definition", "id", "sequence", "qualities": // keys SetAttribute gives another meaning to
+		k += "s"
 	}
 	return k
 }
